@@ -18,7 +18,7 @@
 import GEVerif.Lemmas.WellTyped
 
 namespace GEVerif.C02
-open GEVerif
+open GEVerif GEVerif.WellTyped
 
 /-- Every refinement's generator produces a value satisfying the refinement — for every
 refinement (dependent ones included), base type, decider, fuel, synthesis context (i.e. position:
@@ -145,22 +145,22 @@ theorem C02_negative_size_witness :
 example : mhOK (.strSize 1 2 ["a", "b"]) = true := by decide
 example : mhOK (.strSize 1 2 ["ab"]) = false := by decide
 -- boundary parameters: min == max, empty-allowed list, one-letter alphabet
-example : (createNode exGWT ⟨.grow, 3⟩ 5 (.ann .int (.intRange 4 4)) ⟨0, 0⟩ [] (exStWT [7])).isOk = true := by
+example : resIsOk (createNode exGWT ⟨.grow, 3⟩ 5 (.ann .int (.intRange 4 4)) ⟨0, 0⟩ [] (exStWT [7])) = true := by
   decide
-example : (createNode exGWT ⟨.grow, 3⟩ 5 (.ann (.list .bool) (.listSize 0 0)) ⟨0, 0⟩ [] (exStWT [7])).isOk = true := by
+example : resIsOk (createNode exGWT ⟨.grow, 3⟩ 5 (.ann (.list .bool) (.listSize 0 0)) ⟨0, 0⟩ [] (exStWT [7])) = true := by
   decide +kernel
-example : (createNode exGWT ⟨.grow, 3⟩ 5 (.ann .str (.strSize 2 2 ["x"])) ⟨0, 0⟩ [] (exStWT [7])).isOk = true := by
+example : resIsOk (createNode exGWT ⟨.grow, 3⟩ 5 (.ann .str (.strSize 2 2 ["x"])) ⟨0, 0⟩ [] (exStWT [7])) = true := by
   decide +kernel
-example : (createNode exGWT ⟨.grow, 3⟩ 5 (.ann (.tuple [.int, .int]) (.interval 1 2 3)) ⟨0, 0⟩ []
-    (exStWT [0, 2])).isOk = true := by decide +kernel
+example : resIsOk (createNode exGWT ⟨.grow, 3⟩ 5 (.ann (.tuple [.int, .int]) (.interval 1 2 3)) ⟨0, 0⟩ []
+    (exStWT [0, 2])) = true := by decide +kernel
 -- dependent refinement read against the actual sibling
-example : (createNode exGWT ⟨.grow, 3⟩ 5 (.ann .int (.depIntRangeLo "a" 9)) ⟨0, 0⟩ [("a", .int 7)]
-    (exStWT [1])).isOk = true := by decide +kernel
+example : resIsOk (createNode exGWT ⟨.grow, 3⟩ 5 (.ann .int (.depIntRangeLo "a" 9)) ⟨0, 0⟩ [("a", .int 7)]
+    (exStWT [1])) = true := by decide +kernel
 example : ∃ v s', createNode exGWT ⟨.grow, 3⟩ 5 (.ann .int (.depIntRangeLo "a" 9)) ⟨0, 0⟩ [("a", .int 7)]
     (exStWT [1]) = .ok v s' ∧ sat (.depIntRangeLo "a" 9) [("a", .int 7)] v = true := by
-  obtain ⟨v, s', h⟩ := (Res.isOk_iff _).1
-    (show (createNode exGWT ⟨.grow, 3⟩ 5 (.ann .int (.depIntRangeLo "a" 9)) ⟨0, 0⟩ [("a", .int 7)]
-      (exStWT [1])).isOk = true by decide +kernel)
+  obtain ⟨v, s', h⟩ := (resIsOk_iff _).1
+    (show resIsOk (createNode exGWT ⟨.grow, 3⟩ 5 (.ann .int (.depIntRangeLo "a" 9)) ⟨0, 0⟩ [("a", .int 7)]
+      (exStWT [1])) = true by decide +kernel)
   exact ⟨v, s', h, C02_generate_sat _ _ _ _ _ _ _ _ _ _ (by decide) (by decide) h⟩
 -- a refined field of the example grammar: `Vec.xs` at position 1 depends on `Vec.n`
 example : (exGWT.cls 3).fields[1]? = some ("xs", .ann (.list (.cls 0)) (.depListSize "n")) := rfl
